@@ -27,10 +27,10 @@ def main():
                 "evidence_file": "/verif/evidence/%s.json" % pid,
                 "replay_cmd_template": "./check %s --replay {path}" % pid,
                 "engine": "ckb-facts+rules",
-                "technique": tech + " + FINGERPRINT: canonical decisions and significant calls of every function of the property's anchor files compared with the reviewed reference of the pinned tree",
+                "technique": tech + " + FINGERPRINT atoms: for every function of the property's anchor files, the loss of a refactoring-stable fact of the reviewed reference (workspace / effectful call, cleaned operand form of a call argument, canonical comparison or enum test with its rejecting side, rejection on every successful path, constructed variant / field form, guard set of a rejection or procedure call) that did not move into a helper",
                 "level_claimed": {
                     "category": "other",
-                    "text": "Static analysis (rule instances over rustc MIR of the current tree) decides these structural necessary conditions of the property for every path / call site: %s. In addition every function defined in the property's anchor files is compared, decision by decision and significant call by significant call, with the reviewed reference of the pinned tree (a change there is reported as 'differs from the reviewed reference' and needs review; it is not by itself proof that the property is violated). It does NOT decide: %s." % (decided, nd),
+                    "text": "Static analysis (rule instances over rustc MIR of the current tree) decides these structural necessary conditions of the property for every path / call site: %s. In addition every function defined in the property's anchor files is compared with the reviewed reference of the pinned tree: the LOSS of a refactoring-stable fact (DESIGN 3.13: a test, a step, an operand form, a rejection that was on every successful path, the exact conditions under which a rejection is tested or a procedure is called) that did not move into a helper is reported and needs review (it changes that function's behaviour; it is not by itself proof that the property is violated); additions and all other differences are printed as REVIEW notes and never alarm. It does NOT decide: %s." % (decided, nd),
                     "design_ref": "DESIGN.md section 5.%s" % pid,
                 },
                 "level_note": "Trusted base: rustc's type-checked MIR of `cargo +nightly check --workspace` (dev profile, default features; cfg(test) excluded); dyn/generic calls matched by trait method path; external crates (RocksDB atomicity, fsync, molecule codec, ckb-vm) are leaves; unwind edges ignored. Decides the listed necessary conditions only; not decided: %s." % nd,
@@ -54,7 +54,7 @@ def main():
         ],
         "checks": checks,
         "not_applicable": na,
-        "notes": "All checks are static analysis of /repo's current working tree (facts re-extracted whenever any .rs/.toml/.lock/.mol file changes). known_findings.json lists the recorded open findings (F4: seven ChainStore accessors without a freezer fallback, printed as KNOWN-FINDING lines by check C10) and the five defects repaired by fix: commits in /repo (F1, F2, F3, F5, F6; DESIGN.md section 6).",
+        "notes": "All checks are static analysis of /repo's current working tree (facts re-extracted whenever any .rs/.toml/.lock/.mol file changes). known_findings.json lists the recorded open findings (F4: seven ChainStore accessors without a freezer fallback, printed as KNOWN-FINDING lines by check C10) F10: pool aggregates when a parent arrives after its children, printed by C11) and the defects repaired by fix: commits in /repo (DESIGN.md section 6).",
     }
     json.dump(m, open(os.path.join(V, "MANIFEST.json"), "w"), indent=1)
     print("checks:", [c["property_id"] for c in checks], "na:", [n["property_id"] for n in na])
